@@ -253,6 +253,14 @@ def templates():
         t.append((["Switch", ["this", "k"], [[0, B], [1, ["name", "Int16ub"]]], ["Bytes", 5]], {"k": k}))
     for key in (0, 7, tag(b"\x01\x02")):
         t.append((["FixedSized", 4, ["ProcessXor", ["this", "k"], ["name", "Int32ub"]]], {"k": key}))
+    # wrappers around inner constructs of size 0: they declare 0 and take nothing, whatever follows them in the stream
+    for z in (["Bitwise", ["Array", 0, ["name", "Bit"]]], ["BitStruct", []], ["ByteSwapped", ["Bytes", 0]], ["BitsSwapped", ["Bytes", 0]], ["Bitwise", ["If", False, ["name", "Octet"]]],
+              ["Bitwise", ["Padding", 0]], ["Bitwise", ["Struct", []]], ["ByteSwapped", ["Struct", []]], ["BitsSwapped", ["Array", 0, B]], ["Padding", 0], ["Padded", 0, ["Bytes", 0]], ["FixedSized", 0, ["Bytes", 0]],
+              ["Aligned", 4, ["Bytes", 0]], ["Bitwise", ["Bytewise", ["Bytes", 0]]]):
+        t.append((z, {}))
+        t.append((["Struct", [["z", z], ["t", ["name", "Int16ub"]]]], {}))
+        t.append((["Sequence", [[None, B], [None, z], [None, B]]], {}))
+        t.append((["Array", 2, ["Struct", [["z", z], ["t", B]]]], {}))
     # zero-width look-ahead whose inner parse succeeds, mismatches after consuming, or runs into the end of the data
     for n in (1, 2, 3):
         for pk in (["Const", tag(b"AB"), None], ["name", "Int16ub"], ["Bytes", 9], ["Struct", [["a", B], ["c", ["Const", tag(b"\x00"), None]]]], ["OneOf", B, [1, 2]], ["CString", "ascii"]):
